@@ -430,7 +430,7 @@ class World:
 
     def _spy(self, orig):
         def report(f):
-            self.recv_errors.append("%s: %s" % (f.type.__name__, str(f.value)[:200]))
+            self.recv_errors.append("%s: %s" % (f.type.__name__, str(f.value)[:1500]))
             return orig(f)
         return report
 
